@@ -87,3 +87,29 @@ func Wait(counter func() int, cap time.Duration) (string, bool) {
 	}
 	return busy, false
 }
+
+// Dump returns a compact listing (state + first milvus-cdc frames) of every goroutine of the code under test.
+func Dump() string {
+	buf := make([]byte, 4<<20)
+	n := runtime.Stack(buf, true)
+	var sb strings.Builder
+	for _, g := range strings.Split(string(buf[:n]), "\n\n") {
+		m := header.FindStringSubmatch(g)
+		if m == nil || !strings.Contains(g, "github.com/zilliztech/milvus-cdc/") {
+			continue
+		}
+		sb.WriteString("goroutine " + m[1] + " [" + m[2] + "]")
+		k := 0
+		for _, l := range strings.Split(g, "\n") {
+			if strings.Contains(l, "github.com/zilliztech/milvus-cdc/") && !strings.HasPrefix(l, "\t") {
+				sb.WriteString(" <- " + strings.TrimSpace(l[strings.LastIndex(l, "/")+1:]))
+				k++
+				if k >= 4 {
+					break
+				}
+			}
+		}
+		sb.WriteString("\n")
+	}
+	return sb.String()
+}
